@@ -4,6 +4,7 @@
    every node sits in the bucket its address hashes to, no two nodes share an address. *)
 From Coq Require Import NArith List Bool Permutation.
 From CppUVerif Require Import gen.Gen_Common C04_Model C04_Lists C04_Table C04_Proofs.
+From CppUVerif Require C04_LeafTie.
 Import ListNotations.
 
 (* refinement, all histories: after any valid operation sequence the table satisfies the invariants, holds exactly the
@@ -103,3 +104,9 @@ Print Assumptions C04_walks_textbook.
 Theorem C04_run_meets_spec : forall ops, valid ops = true -> spec ops (run ops) = true.
 Proof. exact run_meets_spec. Qed.
 Print Assumptions C04_run_meets_spec.
+
+(* the leaf functions of the table model ARE the source: bucket hash, isInPeriod and isInAllocationStage equal the functions
+   tools/cxx2coq.py regenerates from clang's AST of MemoryLeakDetector.cpp on every run (gen/Gen_Leaf.v) *)
+Theorem C04_leaf_functions_are_the_source : C04_LeafTie.C04_leaf_functions_are_the_source_stmt.
+Proof. exact C04_LeafTie.C04_leaf_functions_are_the_source. Qed.
+Print Assumptions C04_leaf_functions_are_the_source.
